@@ -8,6 +8,8 @@ CONSTANTS
   Mode = "gen"
   H = 1
   N = 6
+  PerRecordSweep = FALSE
+  SnapshotSweep = FALSE
   Target = "inner"
 SPECIFICATION Spec
 INVARIANTS Emit
